@@ -51,6 +51,7 @@ stats! {
     entry_occ_remove_nonlast,
     entry_vacant_fill_last,
     entry_closure_runs,
+    entry_closure_panics,
     clones,
     clones_ge2,
     clones_full,
